@@ -195,6 +195,10 @@ def hand_assemble(data):
             d['distance_function'] = {'manhattan': Position.manhattan_distance, 'euclidean': Position.euclidean_distance}[d['distance_function']]
         if 'area' in d:
             d['area'] = Area(*[tuple(x) for x in d['area']])
+        if 'visibility_function' in d:
+            from gym_gridverse.envs import visibility_functions as vf
+
+            d['visibility_function'] = mk(vf.visibility_function_registry, d['visibility_function'])
         return d
 
     def only(fn, kw):
